@@ -30,6 +30,8 @@ RESTART = [{"op": "crash"}, {"op": "boot"}, {"op": "poll"}]
 CFG_P = {"S": 3, "D": 4, "G": 2, "cache": 6, "idx": 100, "h0": 104}
 # the smallest chain the daemon accepts
 CFG_MIN = {"S": 2, "D": 3, "G": 1, "cache": 6, "idx": 100, "h0": 99}
+CFG_GRACE = {"S": 3, "D": 1, "G": 3, "cache": 6, "idx": 100, "h0": 104}
+CFG_ZERO = {"S": 3, "D": 0, "G": 2, "cache": 6, "idx": 100, "h0": 104}
 CFG_MIN100 = {"S": 2, "D": 3, "G": 1, "cache": 6, "idx": 100, "h0": 100}
 
 
@@ -123,6 +125,12 @@ def wiring_scenarios():
            {"op": "reorg", "depth": 2, "blocks": [[], [D(1)], []], "to_mempool": True}, POLL, get(1, 1), get(2, 2), mine([P(1), D(2)]), ff(1, "each"),
            get(1, 1), get(2, 2), sub(1)]
     out.append(scen("e2e-reorg", CFG_A, ops, ["C04", "C01", "C02"]))
+    # (10) a configuration whose grace period is LONGER than the subscription (and a zero-length subscription): the purge
+    # height is expiry + the configured grace period, whatever the duration (Config::verify must not "normalise" it)
+    for cfg, name in ((CFG_GRACE, "e2e-grace-longer"), (CFG_ZERO, "e2e-duration-zero")):
+        ops = [reg(1), reg(2), add(1, 1, valid(1)), sub(1)] + [x for _ in range(cfg["D"] + cfg["G"] + 1) for x in (ff(1, "each"), sub(1), reg(2))]
+        ops += [mine([D(1)]), sub(1), sub(2)]
+        out.append(scen(name, cfg, ops, ["C09", "C02"]))
     out += outage_scenarios()
     return out
 
